@@ -169,6 +169,9 @@ func genProject(r *rand.Rand, o genOpts) *projSpec {
 			}
 			if r.IntN(3) == 0 {
 				p.Files[filepath.Join(dir, d, "sub", "deep.txt")] = "deep v0\n"
+				if r.IntN(2) == 0 {
+					p.Files[filepath.Join(dir, d, "sub", "zz.txt")] = "last of sub v0\n"
+				}
 			}
 			if r.IntN(3) == 0 {
 				p.Files[filepath.Join(dir, d, "en", "msg.txt")] = "hello\n"
